@@ -112,7 +112,7 @@ static void fam_types()
 					a.push_back(hex(pkt));
 					a.insert(a.end(), ra.begin(), ra.begin() + 1);
 					a.insert(a.end(), ra.begin() + 4, ra.end());
-					RO.emit("pgp.sigverify", a, "1", cid);
+					RO.emit(sigverify_kind("pgp.sigverify", s, h).c_str(), a, "1", cid);
 				}
 				std::string what = fn + "-" + str(ts.type);
 				tamper_sigpkt(pkt, s.pub->key, t, cid, what);
